@@ -260,7 +260,8 @@ Print Assumptions C04_literal_translated.
    to a stated length, instances on printed trees, and the differential run of the extracted interpretation against
    the implementation.  NOT REACHED: the equality with the specification parser on L for texts of every length
    (meta/C04.json not_proved). *)
-From GoMC Require Model.C04_dsyntax Model.C04_dec Gen.Decoder Proofs.C04_dec Proofs.C04_dec_sweep.
+From GoMC Require Model.C04_dsyntax Model.C04_dec Gen.Decoder Proofs.C04_dec Proofs.C04_dec_sweep Proofs.C04_dec_sweep2
+  Proofs.C04_dec_sweep3.
 
 (* the translated program mentions no package-level variable and calls only translated functions and the primitives
    the interpreter defines: its meaning is a function of the text (and the float oracle) alone *)
@@ -276,11 +277,36 @@ Proof. exact C04_dec.decoder_scratch_local. Qed.
    space (alpha1), and of at most 5 symbols over brackets, comma, semicolon, minus, 1, 2, b, s, L, B, I and space (alpha2): whenever the specification parser reads the text as the tree t, the interpretation of the translated decoder
    writes exactly enc t *)
 Theorem C04_decoder_translated_short : forall (text : list Z) (t : tag),
-  ((length text <= 6)%nat /\ Forall (fun c => In c C04_dec_sweep.alpha1) text) \/
-  ((length text <= 5)%nat /\ Forall (fun c => In c C04_dec_sweep.alpha2) text) ->
+  ((length text <= 6)%nat /\ Forall (fun c => In c Proofs.C04_dec.alpha1) text) \/
+  ((length text <= 5)%nat /\ Forall (fun c => In c Proofs.C04_dec.alpha2) text) ->
   parse C04_dec_sweep.nopfs C04_dec_sweep.nopfs (map Z.to_N text) = Some t ->
-  C04_dec.decode_text C04_dec_sweep.nopf Decoder.decoder_prog text = C04_dec.DOk (map Z.of_N (enc t)).
+  C04_dec.decode_text Proofs.C04_dec.nopf Decoder.decoder_prog text = C04_dec.DOk (map Z.of_N (enc t)).
 Proof. exact C04_dec_sweep.decoder_agrees_short. Qed.
+
+(* float literals: the same on EVERY text of at most 6 symbols over 1 . - + f D d brackets comma and space (alpha3), under
+   float oracles that are consistent with each other (spf reads (sign, integer digits, fraction digits), zpf the token
+   without its suffix letter: the same decimal text) *)
+Theorem C04_decoder_translated_short_floats : forall (text : list Z) (t : tag),
+  (length text <= 6)%nat -> Forall (fun c => In c Proofs.C04_dec.alpha3) text ->
+  parse C04_dec_sweep2.spf C04_dec_sweep2.spf (map Z.to_N text) = Some t ->
+  Model.C04_dec.decode_text C04_dec_sweep2.zpf Decoder.decoder_prog text = Model.C04_dec.DOk (map Z.of_N (enc t)).
+Proof. exact C04_dec_sweep2.decoder_agrees_short_floats. Qed.
+
+(* totality on EVERY text of at most 5 symbols over alpha1, and over alpha3: the interpretation ends in a payload or an
+   error - no panic (phasePanicMsg, index or slice out of range, failed type assertion), no statement without a
+   meaning, no exhausted fuel *)
+Theorem C04_decoder_total_short : forall text : list Z, (length text <= 5)%nat ->
+  (Forall (fun c => In c Proofs.C04_dec.alpha1) text ->
+   (exists o, Model.C04_dec.decode_text Proofs.C04_dec.nopf Decoder.decoder_prog text = Model.C04_dec.DOk o) \/
+   Model.C04_dec.decode_text Proofs.C04_dec.nopf Decoder.decoder_prog text = Model.C04_dec.DErr) /\
+  (Forall (fun c => In c Proofs.C04_dec.alpha3) text ->
+   (exists o, Model.C04_dec.decode_text C04_dec_sweep2.zpf Decoder.decoder_prog text = Model.C04_dec.DOk o) \/
+   Model.C04_dec.decode_text C04_dec_sweep2.zpf Decoder.decoder_prog text = Model.C04_dec.DErr).
+Proof.
+  intros text L. split; intros F.
+  - exact (C04_dec_sweep3.decoder_total_short1 text L F).
+  - exact (C04_dec_sweep2.decoder_total_short3 text L F).
+Qed.
 
 (* instances of the round trip through the TRANSLATED decoder: the writer's text of a tree with every kind of leaf,
    nested containers, hostile strings and keys is decoded to exactly the tree's encoding *)
@@ -307,3 +333,5 @@ Proof. repeat split; vm_compute; reflexivity. Qed.
 Print Assumptions C04_decoder_closed.
 Print Assumptions C04_decoder_scratch_local.
 Print Assumptions C04_decoder_translated_short.
+Print Assumptions C04_decoder_translated_short_floats.
+Print Assumptions C04_decoder_total_short.
